@@ -20,6 +20,8 @@ import Proofs.Format
 import Proofs.FormatTopo
 import Proofs.FormatClosure
 import Proofs.FormatQuote
+import Proofs.FormatExpRound
+import Proofs.FormatExpLex
 import Martian.FormatExp
 import Gen.Facts
 
@@ -160,5 +162,105 @@ theorem keyword_table_current : Gen.tokKeywords = Martian.FormatExp.keywordTable
 /-- … and the tokens the grammar's `id` production accepts besides `ID` are the
 alternatives of that production in grammar.y now (`Gen.idTokens`, source order) -/
 theorem id_tokens_current : Gen.idTokens = Martian.FormatExp.idTokens := by decide
+
+
+/-! ## value expressions: printer / reader round trip
+
+Model: `Martian.FormatExp` (`fmt` = `Exp.format` as run by `FormatExp`;
+`parseValExp` = tokenizer + `val_exp` grammar as run by `Parser.ParseValExp`;
+`wf` = the expressions the claim is made for; `norm` = the documented
+normalisations).  Tied on every run: `fmt` vs `syntax.FormatExp` byte for byte,
+`parseValExp` vs `Parser.ParseValExp` (AST dump) on printed and near-miss
+texts, and the three statements below monitored on the real code
+(harness/c09exp.go). -/
+section ValueExpressions
+open Martian.FormatExp
+
+/-- **Round trip.**  For EVERY well-formed value expression (any nesting of
+arrays, maps, struct literals, references inside collections, strings with any
+valid UTF-8 content, any `int64`, floats given by their 'g' text), the reader
+accepts the printed text and returns the expression up to the normalisations
+`norm` (a nil array prints as `null`; an integral float prints without `.`/`e`
+and reads back as an int; an empty struct literal reads back as an empty map). -/
+theorem parse_format_exp (e : Exp) (hw : wf e = true) (hv : isVal e = true) :
+    parseValExp (fmt [] e) = some (norm e) := by
+  simp only [parseValExp, lexAll_fmt_top e hw, Option.bind_some]
+  exact parseToks_toks e hw hv
+
+/-- the same for any indentation prefix made of white space (`FormatExp(e, prefix)`) -/
+theorem parse_format_exp_prefix (e : Exp) (p : List UInt8) (hw : wf e = true) (hv : isVal e = true)
+    (hp : p.all isSp = true) : parseValExp (fmt p e) = some (norm e) := by
+  have h := lexAll_fmt e p [] hw hp (Or.inl rfl)
+  rw [List.append_nil] at h
+  have h0 : lexAll [] = some [] := lexAll_nil
+  rw [h0] at h
+  simp only [Option.map_some, List.append_nil] at h
+  simp only [parseValExp, h, Option.bind_some]
+  exact parseToks_toks e hw hv
+
+/-- references are covered wherever the grammar allows them (inside a
+collection): `[e]` for any well-formed `e`, a reference included -/
+theorem parse_format_exp_nested (e : Exp) (hw : wf e = true) :
+    parseValExp (fmt [] (.arr [e])) = some (.arr [norm e]) := by
+  have := parse_format_exp (.arr [e]) (by simp [wf, wfL, hw]) rfl
+  simpa [norm, normL] using this
+
+/-- **Idempotent.**  Printing what was read back gives the same text: the
+printed form of a well-formed expression is a fixed point of read-then-print. -/
+theorem format_exp_idem (e : Exp) (p : List UInt8) (hw : wf e = true) : fmt p (norm e) = fmt p e :=
+  fmt_norm e p hw
+
+/-- read-then-print, in one statement -/
+theorem format_parse_format_exp (e e' : Exp) (hw : wf e = true) (hv : isVal e = true)
+    (h : parseValExp (fmt [] e) = some e') : fmt [] e' = fmt [] e ∧ wf e' = true ∧ parseValExp (fmt [] e') = some e' := by
+  rw [parse_format_exp e hw hv] at h
+  injection h with h
+  subst h
+  refine ⟨fmt_norm e [] hw, wf_norm e hw, ?_⟩
+  rw [parse_format_exp (norm e) (wf_norm e hw) (by rw [isVal_norm]; exact hv), norm_norm]
+
+/-- the normal form is well-formed and normal: after one round trip nothing changes any more -/
+theorem norm_stable (e : Exp) (hw : wf e = true) : wf (norm e) = true ∧ norm (norm e) = norm e :=
+  ⟨wf_norm e hw, norm_norm e⟩
+
+/-- the lexer sees exactly the intended tokens, also in nested position (any
+white-space prefix; followed by `,` `]` `}` newline, space or the end) -/
+theorem lex_format_exp (e : Exp) (p rest : List UInt8) (hw : wf e = true) (hp : p.all isSp = true)
+    (hr : TermStart rest) : lexAll (fmt p e ++ rest) = (lexAll rest).map (toks e ++ ·) :=
+  lexAll_fmt e p rest hw hp hr
+
+/-- non-vacuity: a well-formed expression with every construct — negative and
+extreme ints, a float with exponent and an integral float, strings needing
+every escape class, nested and empty collections, a one-element array (single
+line) and one of a multi-line element, map keys needing escapes, struct keys of
+different lengths incl. an id-like keyword, call and self references with
+paths, `X.default`, a nil array -/
+example : wf (.arr [
+    .int (-9223372036854775808), .int 9223372036854775807, .null, .nilArr, .bool true,
+    .float [0x31, 0x65, 0x2B, 0x30, 0x36], .float [0x2D, 0x32, 0x2E, 0x35], .float [0x31, 0x30, 0x30],
+    .str [0x61, 0x22, 0x5C, 0x0A, 0x01, 0x7F, 0xE2, 0x80, 0xA8, 0xC3, 0xA9, 0xF0, 0x9F, 0x98, 0x80],
+    .arr [], .map [], .struct [], .arr [.arr [.int 1]], .arr [.map [([0x6B], .null)]],
+    .map [([0x22], .int 1), ([0x61, 0x0A], .arr [.int 1, .int 2])],
+    .struct [([0x61], .int 1), ([0x73, 0x70, 0x6C, 0x69, 0x74], .arr [.int 1, .int 2]), ([0x7A, 0x7A, 0x7A], .str [])],
+    .ref false [0x58] [], .ref false [0x58] [[0x61], [0x62]], .ref false [0x58] [sDefault],
+    .ref true [0x78] [], .ref true [0x78] [[0x79]]]) = true := by decide +kernel
+
+/-- Negative witness (F26): the float `-0.0` prints as `-0`, which is not the
+canonical text of an integer, so it is outside `wf`; the text lexes as the
+integer token `-0`, whose value prints as `0`. -/
+theorem negative_zero_not_wf :
+    wf (.float [0x2D, 0x30]) = false ∧
+    Martian.Lexer.numTok false [0x2D, 0x30] = .int [0x2D, 0x30] ∧
+    Martian.Lexer.parseInt [0x2D, 0x30] = some 0 ∧ fmt [] (.int 0) = [0x30] := by decide
+
+/-- Negative witness: outside `wf` the round trip can fail — a struct field or
+reference named like a reserved word (`in`) is printed bare and is then a
+keyword token, not an `id` -/
+theorem reserved_word_not_ident :
+    isIdent [0x69, 0x6E] = false ∧ wordLexeme [0x69, 0x6E] = .tok (.reserved [0x69, 0x6E]) ∧
+    parseToks [.punct 0x7B, .reserved [0x69, 0x6E], .punct 0x3A, .kNull, .punct 0x2C, .punct 0x7D] = none := by
+  decide
+
+end ValueExpressions
 
 end Props.C09
